@@ -16,8 +16,8 @@ import (
 
 func init() {
 	core.Register(&core.Check{
-		ID: "C34",
-		Rule: "cases: (a) every file descriptor linked into the harness (generated code, built by the compact builder): d -> ToFileDescriptorProto -> NewFile -> d' compared accessor by accessor (deep snapshot: names, numbers, kinds, cardinalities, defaults bit for bit, JSON/text names, presence, packed, options bytes, features-derived accessors, ranges, dependencies, services) and ToFileDescriptorProto idempotent; (b) PRNG-generated valid schemas in protoc-canonical form (proto2, proto3, editions 2023/2024; nested types, maps, groups/DELIMITED, real and synthetic oneofs, extension ranges and extensions, services, reserved ranges/names, defaults of every kind, enum aliases, feature overrides at file/message/field/enum/oneof level, multi-file imports incl. public): NewFile accepts, ToFileDescriptorProto(NewFile(p)) == p (after the documented normalisation: syntax omitted for proto2), and d -> p -> d' snapshot-equal; (c) the same schemas with json_name stripped: accepted, same accessors except HasJSONName; distinct = distinct file descriptor protos; non-trivial = at least one message or enum",
+		ID:     "C34",
+		Rule:   "cases: (a) every file descriptor linked into the harness (generated code, built by the compact builder): d -> ToFileDescriptorProto -> NewFile -> d' compared accessor by accessor (deep snapshot: names, numbers, kinds, cardinalities, defaults bit for bit, JSON/text names, presence, packed, options bytes, features-derived accessors, ranges, dependencies, services) and ToFileDescriptorProto idempotent; (b) PRNG-generated valid schemas in protoc-canonical form (proto2, proto3, editions 2023/2024; nested types, maps, groups/DELIMITED, real and synthetic oneofs, extension ranges and extensions, services, reserved ranges/names, defaults of every kind, enum aliases, feature overrides at file/message/field/enum/oneof level, multi-file imports incl. public): NewFile accepts, ToFileDescriptorProto(NewFile(p)) == p (after the documented normalisation: syntax omitted for proto2), and d -> p -> d' snapshot-equal; (c) the same schemas with json_name stripped: accepted, same accessors except HasJSONName; distinct = distinct file descriptor protos; non-trivial = at least one message or enum",
 		Assume: []string{"harness/model/descsnap.go reads descriptors only through protoreflect accessors", "proto.Equal on FileDescriptorProto (C30)"},
 		Batches: func(tier string) []core.Batch {
 			bs := []core.Batch{{Cfg: "base", Name: "linked", Kind: "linked"}, {Cfg: "legacy", Name: "linked-legacy", Kind: "linked"}}
